@@ -173,6 +173,17 @@ def check_reltable(ctx, case, where, tab, t, cls, mips64, summary=None):
         else:
             ctx.fail(bucket, '%s: %s' % (where, detail), case)
 
+    keep_alive = []
+    if n >= 2 and (n + len(where)) % 3 == 0:
+        try:
+            it = iter(tab.iter_relocations())
+            for _ in range(1 + n % (n - 1)):
+                next(it)
+            keep_alive.append(it)
+            ctx.count('first-use.abandoned-walk.reltable')
+        except Exception as e:  # noqa
+            bad.append('exc')
+            ctx.fail_exc('%s|iter|abandoned-first-walk' % where, e, case)
     try:
         if bool(tab.is_RELA()) != rela:
             bad.append('is_RELA')
@@ -244,8 +255,19 @@ def check_relr(ctx, case, where, tab, t, cls, summary=None):
         else:
             ctx.fail(bucket, '%s: %s' % (where, detail), case)
 
+    keep_alive = []
     try:
         early = tab.num_relocations() if first == 'num' else None
+        if first in ('abandon', 'abandon-num') and len(exp) >= 2:
+            # the very first use of the table object is a walk given up after k entries (a search loop with break); whatever the object
+            # remembers of it must not be taken for the whole table afterwards
+            it = iter(tab.iter_relocations())
+            for _ in range(1 + len(t['words']) % (len(exp) - 1)):
+                next(it)
+            keep_alive.append(it)
+            ctx.count('first-use.abandoned-walk.relr')
+            if first == 'abandon-num':
+                early = tab.num_relocations()
         got = [r['r_offset'] for r in tab.iter_relocations()]
         if got != exp:
             j = next((i for i, (a, b) in enumerate(zip(got, exp)) if a != b), min(len(got), len(exp)))
@@ -819,7 +841,7 @@ def gen_tables(ch, tier, kind=None, cls=None, le=None, em=None, sizes=None):
                        'pad': ch.choice([1, 1, 8]), 'dyn_pos': ch.int(0, nseg)}
     nmax = max([len(t.get('entries', t.get('words'))) for t in tables] + [1])
     case['probe'] = sorted({0, nmax - 1, ch.int(0, nmax - 1), ch.int(0, nmax - 1)})
-    case['relr_first'] = ch.choice(['iter', 'num'])
+    case['relr_first'] = ch.choice(['iter', 'num', 'abandon', 'abandon-num'])
     if ch.bool(0.4):
         case['gaps'] = {str(c): ch.choice([1, 3, 4, 7]) for c in range(1, 9) if ch.bool(0.4)}
     return case
@@ -1037,7 +1059,7 @@ def sweep_tables():
                 tables = [{'kind': 'relr', 'name': '.relr.dyn', 'words': ws}]
                 via, dynsec = [('section', True), ('segment', True), ('segment', False)][k % 3]
                 cases.append({'kind': 'relr', 'cls': cls, 'le': le, 'em': 62 if cls == 64 else 3, 'tables': tables, 'probe': [0, 1, 2, 30, 31, 62, 63, 64],
-                              'relr_first': 'num' if k % 2 else 'iter', 'dyn': _dyn_for(tables, cls, via, dynsec, VBASE[cls][k % len(VBASE[cls])])})
+                              'relr_first': ('iter', 'num', 'abandon', 'abandon-num')[k % 4], 'dyn': _dyn_for(tables, cls, via, dynsec, VBASE[cls][k % len(VBASE[cls])])})
     return cases
 
 
